@@ -18,8 +18,9 @@ def main():
     checks = []
     na = []
     engines = {}
+    ready = set(open(os.path.join(HERE, "checks", "READY")).read().split())
     for pid in props:
-        if pid not in mods:
+        if pid not in mods or pid not in ready:
             na.append({"property_id": pid, "reason": "check not built yet in this session (planned in DESIGN.md); "
                                                      "nothing is claimed for it"})
             continue
